@@ -698,6 +698,8 @@ pub enum Op {
     Vis(u8, u8, bool),
     /// Insert `R` on slot pointing at target slot.
     InsRef(u8, u8),
+    /// Mutate the existing `R` of slot in place so that it points at another target slot.
+    MutRef(u8, u8),
     SetParent(u8, u8),
     ClearParent(u8),
     /// Insert `F` with a value the client's deserialization function refuses.
@@ -763,6 +765,7 @@ impl Op {
             Op::Mut(s, t) => format!("mutate {} of e{}", ctag_name(t), s + 1),
             Op::Vis(c, s, v) => format!("vis(c{},e{},{})", c, s + 1, v),
             Op::InsRef(s, t) => format!("insert R->e{} on e{}", t + 1, s + 1),
+            Op::MutRef(s, t) => format!("re-point R of e{} at e{}", s + 1, t + 1),
             Op::SetParent(s, p) => format!("set parent of e{} to e{}", s + 1, p + 1),
             Op::ClearParent(s) => format!("clear parent of e{}", s + 1),
             Op::InsPoison(s) => format!("insert F with a value the client refuses on e{}", s + 1),
@@ -1112,6 +1115,11 @@ impl Sim {
             Op::InsRef(s, t) => {
                 s != t && self.alive(s).is_some_and(|e| !self.has_tag(e, TR)) && self.marked(t)
             }
+            Op::MutRef(s, t) => {
+                s != t
+                    && self.marked(t)
+                    && self.alive(s).is_some_and(|e| self.server.world().get::<R>(e).is_some_and(|r| Some(r.0) != self.alive(t)))
+            }
             Op::SetParent(s, p) => {
                 s != p
                     && self.alive(s).is_some()
@@ -1239,7 +1247,7 @@ impl Sim {
             Op::MapPre(_, s) | Op::MapPreUnmarked(_, s) | Op::MapPreEarly(_, s) => {
                 self.last_edit.insert((s + 1, TA), (v, None));
             }
-            Op::InsRef(s, _) => {
+            Op::InsRef(s, _) | Op::MutRef(s, _) => {
                 self.last_edit.insert((s + 1, TR), (v, None));
             }
             _ => {}
@@ -1361,6 +1369,11 @@ impl Sim {
                     .world_mut()
                     .entity_mut(e)
                     .insert(R(tgt, val(s + 1, TR, v)));
+            }
+            Op::MutRef(s, t) => {
+                let e = self.alive(s).unwrap();
+                let tgt = self.alive(t).unwrap();
+                *self.server.world_mut().get_mut::<R>(e).unwrap() = R(tgt, val(s + 1, TR, v));
             }
             Op::SetParent(s, p) => {
                 let e = self.alive(s).unwrap();
